@@ -255,6 +255,40 @@ Proof.
   specialize (H k Hkin). rewrite Hex in H. exact H.
 Qed.
 
+(* consequences of the full statement (no exception) *)
+Theorem same_limits_pointwise : forall docs gt,
+  same_limits docs gt [] ->
+  forall r s x k,
+    In r docs -> well_kinded (d_range r) x = true -> class_of x = Some k ->
+    exists g, guard_at gt (d_key r) s = Some g /\
+              (is_np x = false -> accepts g x = in_range (d_range r) x) /\
+              (accepts g x = true -> in_range (d_range r) x = true).
+Proof. intros docs gt H r s x k Hr Hw Hk. exact (H r s x k Hr Hw Hk eq_refl). Qed.
+
+Theorem ctor_equals_setter : forall docs gt,
+  same_limits docs gt [] ->
+  forall r x k,
+    In r docs -> well_kinded (d_range r) x = true -> class_of x = Some k -> is_np x = false ->
+    exists gc gs, guard_at gt (d_key r) SCtor = Some gc /\ guard_at gt (d_key r) SSetter = Some gs /\
+                  accepts gc x = accepts gs x.
+Proof.
+  intros docs gt H r x k Hr Hw Hk Hn.
+  destruct (H r SCtor x k Hr Hw Hk eq_refl) as [gc [Hgc [Hc _]]].
+  destruct (H r SSetter x k Hr Hw Hk eq_refl) as [gs [Hgs [Hs _]]].
+  exists gc, gs. repeat split; try assumption. rewrite (Hc Hn), (Hs Hn). reflexivity.
+Qed.
+
+(* an instance spelled out for one row (used as a non-vacuity example) *)
+Theorem same_limits_num_instance : forall docs gt r s,
+  same_limits docs gt [] -> In r docs -> (exists lo hi, d_range r = DRange lo hi) ->
+  forall q, exists g, guard_at gt (d_key r) s = Some g /\ accepts g (VNum q) = in_range (d_range r) (VNum q).
+Proof.
+  intros docs gt r s H Hr [lo [hi Hd]] q.
+  destruct (H r s (VNum q) KNum Hr) as [g [Hg [Ha _]]]; try reflexivity.
+  - rewrite Hd. reflexivity.
+  - exists g. split; [exact Hg | exact (Ha eq_refl)].
+Qed.
+
 (* ------------------------------------------------------------------------------------------ refutation *)
 
 Lemma cls_eqb_eq : forall a b, cls_eqb a b = true -> a = b.
